@@ -104,6 +104,9 @@ type C16Req struct {
 	// equal, or reading fails (the compressed bytes are no document) - and a broken body fails
 	// under either reading.
 	EncSpelling int `json:"enc_spelling,omitempty"`
+	// Pad: insignificant white space that follows the document in the body (both codecs stop
+	// reading at the end of the entity; what follows is part of the body all the same)
+	Pad int `json:"pad,omitempty"`
 }
 
 func spellEncoding(enc string, how int) string {
@@ -258,6 +261,9 @@ func genC16(t *rapid.T) C16Case {
 		r.Encoding = rapid.SampledFrom([]string{"", "gzip", "gzip", "deflate"}).Draw(t, "encoding")
 		r.Members = rapid.SampledFrom([]int{1, 1, 1, 2, 3}).Draw(t, "members")
 		r.Lvl = rapid.SampledFrom([]int{0, 0, 0, 1, 3, 4, 5, 6, 8, 9, 12}).Draw(t, "level")
+		if rapid.IntRange(0, 5).Draw(t, "padded") == 0 {
+			r.Pad = rapid.SampledFrom([]int{1, 100, 5000, 20000}).Draw(t, "pad")
+		}
 		if r.Encoding != "" && rapid.IntRange(0, 7).Draw(t, "spelled") == 0 {
 			r.EncSpelling = rapid.IntRange(1, 4).Draw(t, "encspelling")
 		}
@@ -414,6 +420,10 @@ func checkC16(c C16Case) (vs []*Violation) {
 			continue
 		}
 		plain := wo.Body
+		if r.Pad > 0 {
+			plain = append(append([]byte{}, plain...), bytes.Repeat([]byte(" \n"), (r.Pad+1)/2)...)
+			labels = append(labels, "document_followed_by_white_space")
+		}
 		// 2. read it back
 		wire := compressBody(r.Encoding, plain, r.Members, r.Lvl)
 		mustFail := false
